@@ -321,4 +321,33 @@ theorem block_eq_eq (a b : BlockIdExt) :
 theorem block_hash_eq (H : Int × Int × Int × Bytes × Bytes → Int) (a : BlockIdExt) :
     Block.hash H a.fileHash a.rootHash a.seqno a.shard a.workchain = some (a.pyHash H) := rfl
 
+/-! ### block.py: the dict forms -/
+
+/-- the Python dict that the model's `BlockDict` stands for (str keys as the numbers of PyTl.lean; the hashes are `.hex()` strings,
+absent for a `BlockId`) -/
+def dictVal (d : BlockDict) : Val :=
+  .obj none ([(kWorkchain, .int d.workchain), (kShard, .int d.shard), (kSeqno, .int d.seqno)] ++
+    (match d.rootHash with | some r => [(kRootHash, .hex r)] | none => []) ++
+    (match d.fileHash with | some f => [(kFileHash, .hex f)] | none => []))
+
+theorem block_to_dict_eq (b : BlockIdExt) :
+    Block.to_dict b.fileHash b.rootHash b.seqno b.shard b.workchain = some (dictVal b.toDict) := rfl
+
+theorem block_from_dict_eq (d : BlockDict) : Block.from_dict (dictVal d) = BlockIdExt.fromDict d := by
+  obtain ⟨w, s, q, r, f⟩ := d
+  cases r <;> cases f <;>
+    simp [Block.from_dict, Block.init_dyn, dictVal, dictGet?, List.lookup, kWorkchain, kShard, kSeqno, kRootHash, kFileHash, isStr, fromHex?,
+      asInt?, asBytes?, BlockIdExt.fromDict]
+
+theorem blockid_to_dict_eq (s : BlockId) : BlockIdS.to_dict s.seqno s.shard s.workchain = some (dictVal s.toDict) := rfl
+
+theorem blockid_from_dict_eq (d : BlockDict) : BlockIdS.from_dict (dictVal d) = some (BlockId.fromDict d) := by
+  obtain ⟨w, s, q, r, f⟩ := d
+  cases r <;> cases f <;>
+    simp [BlockIdS.from_dict, BlockIdS.init_dyn, dictVal, dictGet?, List.lookup, kWorkchain, kShard, kSeqno, kRootHash, kFileHash, asInt?,
+      BlockId.fromDict]
+
+theorem blockid_init_eq (w s q : Int) : BlockIdS.init w s q = some ⟨w, s, q⟩ := by
+  simp [BlockIdS.init]
+
 end TonVerif.Proofs.SrcTlEngine
